@@ -112,13 +112,17 @@ def run(ctx):
     rng = ctx.rng
     ctx.lean_obligations("SevenZ.Props.C20")
     streams_dec.run(ctx, n_calls=(6000 if ctx.thorough else 1500), n_loop=(400 if ctx.thorough else 100))
+    streams_dec.run_stages(ctx)
     size = (1 << 30) if ctx.thorough else (256 << 20)
     fam = [("LZMA2", [{"id": arclib.FILTER_LZMA2, "preset": 1}], "zeros"),
            ("Copy", [{"id": arclib.FILTER_COPY}], "period"),
            ("BZip2", [{"id": arclib.FILTER_BZIP2}], "zeros"),
            ("Deflate", [{"id": arclib.FILTER_DEFLATE}], "zeros"),
            ("ZStandard", [{"id": arclib.FILTER_ZSTD, "level": 1}], "zeros"),
-           ("LZMA2-random", [{"id": arclib.FILTER_LZMA2, "preset": 0}], "random")]
+           ("LZMA2-random", [{"id": arclib.FILTER_LZMA2, "preset": 0}], "random"),
+           # a compressor that is not the last stage of the decoder chain (BCJ filter behind it)
+           ("X86+BZip2", [{"id": arclib.FILTER_X86}, {"id": arclib.FILTER_BZIP2}], "zeros"),
+           ("ARM+LZMA", [{"id": arclib.FILTER_ARM}, {"id": arclib.FILTER_LZMA, "preset": 1}], "zeros")]
     if ctx.thorough:
         fam += [("LZMA", [{"id": arclib.FILTER_LZMA, "preset": 1}], "zeros"),
                 ("Brotli", [{"id": arclib.FILTER_BROTLI, "level": 1}], "zeros"),
